@@ -982,8 +982,8 @@ Open(tok, r) == IF r # <<>> /\ Head(r) \in {"(", "(("} THEN <<tok, " ">> ELSE <<
 RECURSIVE DWord(_, _, _), DCmd(_, _, _), DCmdK(_, _, _, _), DStmts(_, _, _)
 
 \* ---- words
-NWord0 == 18
-NWord  == 20
+NWord0 == 19
+NWord  == 21
 DWord(p, d, inF) ==
   LET c  == IF d = 0 THEN Ch(p) % NWord0 ELSE Ch(p)
       nd == Nd(p, IF d = 0 THEN NWord0 ELSE NWord)
@@ -1007,14 +1007,16 @@ DWord(p, d, inF) ==
     [] c = 16 -> leaf(Wd(<<PE("x") @@ ("Exp" :> ExpOp(":+", LW(<<"s">>)))>>), <<"${x:+s}">>)
     [] c = 17 -> leaf(Wd(<<[k |-> "ArithmExp", X |-> BinA("-", LW(<<"1">>), [k |-> "UnaryArithm", Op |-> "-", X |-> LW(<<"x">>)])]>>),
                       <<"$((1 - -x))">>)
-    [] c = 18 -> LET s == DStmts(p + 1, d - 1, inF) IN
-                 Res(s.pos, Need2(nd, s.need), Wd(<<CS(s.t)>>), Open("$(", s.r) \o s.r \o <<")">>)
+    \* ${x}1 : the braces keep the digit out of the name (a formatter that drops them reads $x1)
+    [] c = 18 -> leaf(Wd(<<PE("x"), Lit(<<"1">>)>>), <<"${x}1">>)
     [] c = 19 -> LET s == DStmts(p + 1, d - 1, inF) IN
+                 Res(s.pos, Need2(nd, s.need), Wd(<<CS(s.t)>>), Open("$(", s.r) \o s.r \o <<")">>)
+    [] c = 20 -> LET s == DStmts(p + 1, d - 1, inF) IN
                  Res(s.pos, Need2(nd, s.need), Wd(<<DQ(<<CS(s.t)>>)>>), Open("\"$(", s.r) \o s.r \o <<")\"">>)
 
 \* ---- commands (each menu entry is a statement)
 NLeaf == 36
-NCmd  == 58
+NCmd  == 60
 EchoQ(pre, nm) == SCall(<<LW(W_echo), Wd(<<DQ(<<Lit(pre), PES(nm)>>)>>)>>)     \* echo "pre$nm"
 TrapT == <<"e", "c", "h", "o", " ", "T", "$", "?">>
 TrapE == <<"e", "c", "h", "o", " ", "E", "$", "?">>
@@ -1138,6 +1140,16 @@ DCmdK(c, p, d, inF) ==
                             [k |-> "CaseItem", Op |-> ";;", Patterns |-> <<LW(<<"a">>)>>, Stmts |-> a.t],
                             [k |-> "CaseItem", Op |-> ";;", Patterns |-> <<LW(<<"*">>)>>, Stmts |-> <<SCall(<<LW(W_echo), LW(<<"o">>)>>)>>]>>]),
                      <<"case", SP>> \o w.r \o <<SP, "in", SP, "a)", SP>> \o a.r \o <<";;", SP, "*)", SP, "echo", SP, "o", SEP, ";;", SP, "esac">>)
+    [] c = 59 ->      \* case a in a) echo one ;& b) echo two ;;& c) echo three ;; a) echo four ;; esac
+                      \* ;& runs the next item unconditionally, ;;& goes back to matching
+                 LET e(t) == <<SCall(<<LW(W_echo), LW(t)>>)>> IN
+                 leaf(Stm([k |-> "CaseClause", Word |-> LW(<<"a">>), Items |-> <<
+                            [k |-> "CaseItem", Op |-> ";&", Patterns |-> <<LW(<<"a">>)>>, Stmts |-> e(<<"1">>)],
+                            [k |-> "CaseItem", Op |-> ";;&", Patterns |-> <<LW(<<"b">>)>>, Stmts |-> e(<<"2">>)],
+                            [k |-> "CaseItem", Op |-> ";;", Patterns |-> <<LW(<<"c">>)>>, Stmts |-> e(<<"3">>)],
+                            [k |-> "CaseItem", Op |-> ";;", Patterns |-> <<LW(<<"a">>)>>, Stmts |-> e(<<"4">>)]>>]),
+                      <<"case", SP, "a", SP, "in", SP, "a)", SP, "echo", SP, "1", SP, ";&", SP, "b)", SP, "echo", SP, "2", SP, ";;&", SP,
+                        "c)", SP, "echo", SP, "3", SP, ";;", SP, "a)", SP, "echo", SP, "4", SEP, ";;", SP, "esac">>)
     [] c \in {47, 48} ->
                  LET a == DCmd(p, d - 1, inF)
                      b0 == DCmd(a.pos, 0, inF)
@@ -1191,6 +1203,11 @@ DCmdK(c, p, d, inF) ==
                                SCall(<<LW(W_echo), Wd(<<[k |-> "ArithmExp", X |-> BinA("-", [k |-> "UnaryArithm", Op |-> "++", Post |-> TRUE, X |-> LW(<<"x">>)],
                                                                                   Wd(<<PES("x")>>))]>>), Wd(<<PES("x")>>)>>)>>)),
                       <<"{", SP, "x=3", SEP, "echo", SP, "$((x++-$x))", SP, "$x", SEP, "}">>)
+
+    [] c = 58 ->      \* { x=3; echo ${x}1 "${x}2"; } : the braces keep the digit out of the name
+                 leaf(Stm(Blk(<<SAsg("x", LW(<<"3">>)),
+                               SCall(<<LW(W_echo), Wd(<<PE("x"), Lit(<<"1">>)>>), Wd(<<DQ(<<PE("x"), Lit(<<"2">>)>>)>>)>>)>>)),
+                      <<"{", SP, "x=3", SEP, "echo", SP, "${x}1", SP, "\"${x}2\"", SEP, "}">>)
 
     [] c = 57 ->      \* S | { while read l; do echo "p$l"; done; (exit 4); } : the reader takes everything and fails differently
                  LET a0 == DCmd(p, d - 1, inF)
